@@ -28,10 +28,10 @@ theorem assemble_sizes (as : List AssetProblem) (gridI : List Nat) (skip : List 
     (assemble as gridI skip).n = (as.map (·.n)).sum ∧
     (assemble as gridI skip).l.length = (assemble as gridI skip).n ∧
     (assemble as gridI skip).u.length = (assemble as gridI skip).n := by
-  refine ⟨assembleFrom_n as 0, ?_, ?_⟩
-  · rw [assemble_l, assemble_n, assembleFrom_n]
+  refine ⟨wf_assembleFrom_n as 0, ?_, ?_⟩
+  · rw [assemble_l, assemble_n, wf_assembleFrom_n]
     exact assembleFrom_l_length as 0 (fun a ha => (hwf a ha).len_l)
-  · rw [assemble_u, assemble_n, assembleFrom_n]
+  · rw [assemble_u, assemble_n, wf_assembleFrom_n]
     exact assembleFrom_u_length as 0 (fun a ha => (hwf a ha).len_u)
 
 /-- every column index of every row (asset rows and nodal rows) is an existing variable -/
@@ -77,7 +77,7 @@ theorem assemble_mapping_faithful (as : List AssetProblem) (gridI : List Nat) (s
   have hle := offset_add_le as i hi
   rw [Nat.zero_add] at h2 h3 h4
   refine ⟨i, hi, h1, h2, h3, ?_, m', hm', h4⟩
-  rw [assemble_n, assembleFrom_n]
+  rw [assemble_n, wf_assembleFrom_n]
   omega
 
 /-- a variable without any mapping row occurs in no nodal row -/
@@ -119,5 +119,58 @@ theorem nodal_rows_exact (as : List AssetProblem) (gridI : List Nat) (skip : Lis
       rw [hstep] at ht
       exact ⟨mem_portfolioNodes as a ha n hn, hs, ht, hany⟩
   · exact assemble_filter_N as gridI skip (fun a ha => (hwf a ha).noN)
+
+/-! ### non-vacuity
+
+Two assets at three nodes on the grid `[0,1,2]`: `exA` (a transport-like asset) has two mapping rows
+per variable (one at each of its nodes, with different factors) and one asset row; `exB` has a
+dispatch variable at `n2`, a dispatch variable at the skipped node `n3` and a variable without any
+mapping row.  Step 2 carries no dispatch, `n3` is in the skip list. -/
+def exA : AssetProblem :=
+  { name := "a", nodes := ["n1", "n2"], c := [1, 2], l := [0, 0], u := [4, 4],
+    rows := [⟨[(0, 1), (1, 1)], 5, .U⟩],
+    mapping := [⟨0, "a", some "n1", .d, 0, -1, false, "disp"⟩, ⟨0, "a", some "n2", .d, 0, 9/10, false, "disp"⟩,
+                ⟨1, "a", some "n1", .d, 1, -1, false, "disp"⟩, ⟨1, "a", some "n2", .d, 1, 9/10, false, "disp"⟩] }
+def exB : AssetProblem :=
+  { name := "b", nodes := ["n2", "n3"], c := [3, 0, 7], l := [-1, 0, 0], u := [1, 2, 1],
+    rows := [⟨[(2, 1), (0, -1)], 0, .L⟩],
+    mapping := [⟨0, "b", some "n2", .d, 1, 2, false, "disp"⟩, ⟨1, "b", some "n3", .d, 0, 1, false, "disp"⟩] }
+
+theorem exWF : ∀ a ∈ [exA, exB], AssetWF [0, 1, 2] a := by
+  intro a ha
+  simp only [List.mem_cons, List.not_mem_nil, or_false] at ha
+  rcases ha with rfl | rfl
+  · refine ⟨by decide, by decide, by decide +kernel, by decide +kernel, ?_, by decide⟩
+    intro m hm n hk hn
+    simp only [exA, List.mem_cons, List.not_mem_nil, or_false] at hm
+    rcases hm with rfl | rfl | rfl | rfl <;> simp at hn <;> subst hn <;> simp [exA]
+  · refine ⟨by decide, by decide, by decide +kernel, by decide +kernel, ?_, by decide⟩
+    intro m hm n hk hn
+    simp only [exB, List.mem_cons, List.not_mem_nil, or_false] at hm
+    rcases hm with rfl | rfl <;> simp at hn <;> subst hn <;> simp [exB]
+
+/-- the nodal record of the example: node-major, step-minor, nothing for step 2 and for `n3` -/
+example : (assemble [exA, exB] [0, 1, 2] ["n3"]).nodal = [(0, "n1"), (1, "n1"), (0, "n2"), (1, "n2")] := by
+  decide +kernel
+
+/-- sizes, offsets and the nodal rows of the example (variable 3 = `exB`'s variable 1 sits at the
+    skipped node, variable 4 has no mapping row: neither occurs in a nodal row) -/
+example : (assemble [exA, exB] [0, 1, 2] ["n3"]).n = 5 ∧ offset [exA, exB] 1 = 2 ∧
+    ((assemble [exA, exB] [0, 1, 2] ["n3"]).rows.filter (·.kind == .N)).map (·.coeffs) =
+      [[(0, -1)], [(1, -1)], [(0, 9/10)], [(1, 9/10), (2, 2)]] := by
+  decide +kernel
+
+/-- the theorems instantiated at the example -/
+example := assemble_sizes [exA, exB] [0, 1, 2] ["n3"] exWF
+example := assemble_cols [exA, exB] [0, 1, 2] ["n3"] exWF
+example := assemble_block [exA, exB] [0, 1, 2] ["n3"] exWF 1 (by decide) 2 (by decide)
+example := nodal_rows_exact [exA, exB] [0, 1, 2] ["n3"] (by decide) exWF
+example := assemble_mapping_faithful [exA, exB] [0, 1, 2] ["n3"] exWF
+  ⟨2, "b", some "n2", .d, 1, 2, false, "disp"⟩ (by decide +kernel)
+example := rowless_not_in_nodal [exA, exB] [0, 1, 2] ["n3"]
+  (nodalRow (assembleFrom 0 [exA, exB]).mapping "n2" 1)
+  (by rw [assemble_rows]
+      exact List.mem_append_right _ (List.mem_map.mpr ⟨(1, "n2"), by decide +kernel, rfl⟩))
+  rfl (fun a ha => (exWF a ha).noN) (2, 2) (by decide +kernel)
 
 end EAO.C07
